@@ -1112,7 +1112,11 @@ example : (run "g" ⟨[], [], [], ["0", "1", "2"]⟩ [] (fun _ => none) (fun _ =
 the `DatasetPublished` notices go out for exactly the declared outputs in declaration order, and the output for which
 the controller's `is_last_output_of` answers "yes" is the one published last (so every other output of the task has
 been published before the controller assumes completion). Moreover, a run that fails because the generator yielded
-too few values never publishes that output. -/
+too few values never publishes that output.
+NOTE: this theorem (and `c10_completion_after_all`) is about `is_last_output_of`, which is still defined in
+`controller/notify.py` but which `notify` no longer calls: completion is decided by `all_outputs_published` (a count
+over the set of outputs seen). The statements about the rule in use are `c10_completion_all_outputs` and
+`c10_completion_fires_once` (Props/C10Done.lean). -/
 theorem c10_completion_is_last (tid : String) (t : Task) (edges : List Edge) (mem : Ds → Option Val)
     (pub : String → Bool) (res : Result) (hpub : ∀ o ∈ t.outputSchema, pub o = true) :
     ((run tid t edges mem pub res).received.isSome = true → (run tid t edges mem pub res).err = none →
@@ -1368,7 +1372,9 @@ theorem c10_published_prefix (tid : String) (t : Task) (edges : List Edge) (mem 
 `is_last_output_of` takes as completion goes out, every declared output that was to be published has been published
 before it, in declaration order. No hypothesis on the result or on the error: this covers the list of the right length
 (all N outputs published, then `TypeError` from `assert_iter_empty`) and the generator that raises after its N-th
-value, where the controller sees the completion notice first and the `TaskFailure` afterwards. -/
+value, where the controller sees the completion notice first and the `TaskFailure` afterwards.
+NOTE: about `is_last_output_of` (no longer called by `notify`) and only for runs that do publish the last declared
+output (`hmem`); for the rule in use and for every publish set see `c10_completion_all_outputs`. -/
 theorem c10_completion_after_all (tid : String) (t : Task) (edges : List Edge) (mem : Ds → Option Val)
     (pub : String → Bool) (res : Result) (hnd : t.outputSchema.Nodup) (o : String)
     (hlast : isLastOutputOf t.outputSchema o = some true)
